@@ -38,6 +38,12 @@ fn run<T: Sc>(case: &C17Case) -> Check {
     let hooks = Hooks::new(case.prog.calls.len());
     let mut model = interpret::<T>(&case.prog, Some(hooks.clone())).map_err(|e| Fail::new("c17.rejected", format!("valid specification rejected: {e:?}")))?;
     let exp = Expected::of(&case.prog);
+    if exp.n == 0 {
+        out.class("N=0");
+    }
+    if case.prog.calls.iter().any(|c| matches!(c, super::bprog::Call::XFrom { .. })) {
+        out.class("x-grid-overridden");
+    }
     // reference model of the model
     let mut alpha: Vec<i32> = case.prog.calls.iter().rev().find_map(|c| if let Call::Init(v) = c { Some(v.clone()) } else { None }).unwrap();
     let mut broken = vec![false; case.prog.calls.len()];
@@ -155,7 +161,7 @@ impl Property for C17 {
     fn cases(&self, tier: Tier) -> usize {
         match tier {
             Tier::Quick => 500_000,
-            Tier::Thorough => 3_000_000,
+            Tier::Thorough => 20_000_000,
         }
     }
     fn strategy(&self, _tier: Tier) -> BoxedStrategy<C17Case> {
@@ -184,7 +190,8 @@ pub fn c17_from_raw(us: &[u16], raw_ops: Vec<(u16, u16, u16, Vec<i32>)>, f32: bo
 
                 // 1 of 64 models is large: 60..139 parameters
     let l = if us[7] % 64 == 1 { 60 + pick(us[6], 80) } else { 1 + pick(us[6], if us[7] % 3 == 0 { 10 } else { 4 }) };
-                let n = 1 + pick(us[0], 6);
+                // (1 of 64 models has an empty independent variable)
+    let n = if us[0] % 64 == 5 { 0 } else { 1 + pick(us[0], 6) };
                 let prog = valid_program(us, l, 1 + pick(us[8], 3), 1 + pick(us[9], 10), n);
                 // closures = function / deriv / invariant calls
                 let closures: Vec<usize> = prog.calls.iter().enumerate().filter(|(_, c)| matches!(c, Call::Function { .. } | Call::Deriv { .. } | Call::Invariant { .. })).map(|(i, _)| i).collect();
@@ -204,7 +211,7 @@ pub fn c17_from_raw(us: &[u16], raw_ops: Vec<(u16, u16, u16, Vec<i32>)>, f32: bo
                         8..=10 => MOp::Deriv(pick(a, l)),
                         11 => MOp::DerivOut(if a % 4 == 0 { usize::MAX } else { l + pick(b, 3) }),
                         12..=14 => {
-                            let lens = [0, n - 1, n + 1, 2 * n + 3];
+                            let lens = [0, n.saturating_sub(1), n + 1, 2 * n + 3];
                             let mut len = lens[pick(b, 4)];
                             if len == n {
                                 len = n + 1;
